@@ -101,6 +101,9 @@ def catalogue(kind):
     F.append(("unknown-tag", "<fooBar device=\"DEV0\"><oneText name=\"A\">x</oneText></fooBar>", []))
     F.append(("newLightVector", '<newLightVector device="DEV0" name="TGT"><oneLight name="A">Alert</oneLight></newLightVector>', []))
     F.append(("write-to-bystander-wrong-kind", new_msg(k, [vc], name="OTHER"), [("OTHER", "A", vv)]))
+    # blank lines and pretty-printed (multi-line) hostile messages: a line-oriented transport must not take them for EOF
+    F.append(("blank-lines", "\n   \n\n", []))
+    F.append(("pretty-printed-unknown-element", '<new%sVector device="DEV0" name="TGT">\n\n  %s\n\n</new%sVector>' % (NEWTAG[k], valid_child(k, "ZZ", 3)[0], NEWTAG[k]), []))
     # direct router calls only: the sender is not a registered client
     F.append(("enableBLOB-from-unregistered-sender", "@unregistered:<enableBLOB device=\"DEV0\">Also</enableBLOB>", []))
     F.append(("enableBLOB-without-sender", "@nosender:<enableBLOB device=\"DEV0\">Only</enableBLOB>", []))
@@ -214,7 +217,9 @@ class Session:
                 return "dead"  # the server already closed this connection; judged at the end of the session
             link.server_ep.feed(xml.encode("latin1"))
         else:
-            self.src.supply(xml + "\n")
+            for ln in (xml + "\n").splitlines(keepends=True):  # the TTY handler reads line by line
+                self.src.supply(ln)
+                self.pump()
         self.pump()
         return "ok"
 
